@@ -71,8 +71,10 @@ class EventEmitter(object):
         """
         is_silent = self.is_silent
         self.is_silent = True
-        yield
-        self.is_silent = is_silent
+        try:
+            yield
+        finally:
+            self.is_silent = is_silent
 
     def connect(self, func=None, event=None, sender=None, **kwargs):
         """Register a callback function to a given event.
